@@ -112,7 +112,7 @@ func genKeys(repo string) (string, []string, error) {
 	notes = append(notes, tr.notes...)
 
 	// DecodePacketKey: recognise which of the two known shapes the source has
-	b.WriteString(decodeShape(common, &notes))
+	b.WriteString(decodeBody(common, &notes))
 
 	// ---- x/delayedack/types : range filters ------------------------------------------------
 	// (the Start/End expressions of the two height-range filters)
@@ -300,45 +300,6 @@ func genKeys(repo string) (string, []string, error) {
 
 	b.WriteString("end DymVerif.Gen.Keys\n")
 	return b.String(), notes, nil
-}
-
-// decodeShape classifies DecodePacketKey.
-func decodeShape(p *pkgSrc, notes *[]string) string {
-	d := p.funcs["DecodePacketKey"]
-	if d == nil {
-		*notes = append(*notes, "DecodePacketKey not found")
-		return "opaque decodePacketKey (s : Bytes) : Option Bytes\n\n"
-	}
-	trim, sliceN, decodeCalls, other := false, false, 0, 0
-	ast.Inspect(d.Body, func(n ast.Node) bool {
-		switch x := n.(type) {
-		case *ast.CallExpr:
-			if sel, ok := x.Fun.(*ast.SelectorExpr); ok {
-				switch selName(sel) {
-				case "bytes.TrimRight":
-					trim = true
-				case "?.Decode", "?.DecodedLen", "?.DecodeString":
-					decodeCalls++
-				default:
-					other++
-				}
-			}
-		case *ast.SliceExpr:
-			if x.Low == nil && x.High != nil {
-				sliceN = true
-			}
-		}
-		return true
-	})
-	usesStd := strings.Contains(nodeString(p, d.Body), "base64.StdEncoding")
-	switch {
-	case usesStd && trim && !sliceN && decodeCalls >= 1 && other == 0:
-		return "/-- `DecodePacketKey`: StdEncoding.Decode into a DecodedLen buffer, then bytes.TrimRight(…, \"\\x00\") -/\ndef decodePacketKey (s : Bytes) : Option Bytes := Keys.decodePacketKeyTrim s\n\n"
-	case usesStd && !trim && decodeCalls >= 1 && other == 0:
-		return "/-- `DecodePacketKey`: StdEncoding decode, result cut at the decoded length -/\ndef decodePacketKey (s : Bytes) : Option Bytes := Keys.decodePacketKeyExact s\n\n"
-	}
-	*notes = append(*notes, "DecodePacketKey: unrecognised shape")
-	return "opaque decodePacketKey (s : Bytes) : Option Bytes\n\n"
 }
 
 func nodeString(p *pkgSrc, n ast.Node) string {
